@@ -557,3 +557,154 @@ func TestC02_Concurrent(t *testing.T) {
 	p := kit.Prop[C02Conc]{ID: "C02", Name: "Concurrent", Quick: 60, Thorough: 4000, Gen: genC02Conc, Run: runC02Conc}
 	p.Execute(t)
 }
+
+// ---- both directions under back-pressure -----------------------------------------------------------
+// The client uploads a large stream and does not read meanwhile; the target pushes a large stream at once and
+// reads at full speed. Each direction must go on while the other one is blocked: the upload completes, then the
+// client reads everything the target sent.
+
+type C02Duplex struct {
+	Cipher string `json:"cipher"`
+	UpMB   int    `json:"up_mb"`
+	DownMB int    `json:"down_mb"`
+	Seed   int64  `json:"seed"`
+}
+
+func genC02Duplex(t *rapid.T) C02Duplex {
+	return C02Duplex{Cipher: rapid.SampledFrom(kit.AllCiphers).Draw(t, "cipher"), UpMB: rapid.IntRange(12, 40).Draw(t, "up"), DownMB: rapid.IntRange(12, 40).Draw(t, "down"), Seed: rapid.Int64Range(1, 1<<40).Draw(t, "seed")}
+}
+
+func runC02Duplex(c C02Duplex, info *kit.Info) *kit.Finding {
+	ks := kit.KeySpec{ID: "user", Cipher: c.Cipher, Secret: "duplex"}
+	key := ks.Key()
+	h := service.NewStreamHandler(service.NewShadowsocksStreamAuthenticator(kit.NewCipherList([]kit.KeySpec{ks}), nil, nil, nil), 5*time.Second)
+	h.SetTargetDialer(kit.PermissiveDialer)
+	front, err := kit.ServeTCP("127.0.0.1", func(ctx context.Context, conn transport.StreamConn) { h.Handle(ctx, conn, nil) })
+	if err != nil {
+		info.Skipped = err.Error()
+		return nil
+	}
+	defer front.Close(3 * time.Second)
+	tl, err := kit.ListenTCPLow(&net.TCPAddr{IP: net.IPv4(127, 0, 0, 1)})
+	if err != nil {
+		info.Skipped = err.Error()
+		return nil
+	}
+	defer tl.Close()
+	block := kit.DetBytes(c.Seed, 1<<20)
+	type tres struct {
+		got  int64
+		sum  uint64
+		werr error
+	}
+	tdone := make(chan tres, 1)
+	go func() {
+		tc, err := tl.AcceptTCP()
+		if err != nil {
+			tdone <- tres{werr: err}
+			return
+		}
+		defer tc.Close()
+		var r tres
+		wdone := make(chan error, 1)
+		go func() { // push everything at once
+			for i := 0; i < c.DownMB; i++ {
+				if _, err := tc.Write(block); err != nil {
+					wdone <- err
+					return
+				}
+			}
+			tc.CloseWrite()
+			wdone <- nil
+		}()
+		buf := make([]byte, 256<<10)
+		for {
+			n, err := tc.Read(buf)
+			r.got += int64(n)
+			for _, b := range buf[:n] {
+				r.sum = r.sum*131 + uint64(b)
+			}
+			if err != nil {
+				break
+			}
+		}
+		r.werr = <-wdone
+		tdone <- r
+	}()
+	cn, err := kit.DialTCP(front.Addr, 3*time.Second)
+	if err != nil {
+		info.Skipped = err.Error()
+		return nil
+	}
+	defer cn.Close()
+	enc := kit.NewStreamEncoder(key, kit.DetBytes(c.Seed+1, key.SaltSize()))
+	cn.Write(enc.Chunk(kit.SocksAddrFor(tl.Addr().String(), false)))
+	var wantSum uint64
+	upDone := make(chan error, 1)
+	go func() { // upload without reading
+		for i := 0; i < c.UpMB; i++ {
+			for off := 0; off < len(block); off += 16000 {
+				if _, err := cn.Write(enc.Chunk(block[off:min(len(block), off+16000)])); err != nil {
+					upDone <- err
+					return
+				}
+			}
+		}
+		cn.CloseWrite()
+		upDone <- nil
+	}()
+	for i := 0; i < c.UpMB; i++ {
+		for _, b := range block {
+			wantSum = wantSum*131 + uint64(b)
+		}
+	}
+	select {
+	case err := <-upDone:
+		if err != nil {
+			return kit.Violation("relay:upload-failed", "client upload of %d MB failed: %v", c.UpMB, err)
+		}
+	case <-time.After(20 * time.Second):
+		return kit.Violation("relay:directions-coupled", "the client's upload of %d MB stalled for 20 s while the target's %d MB wait unread at the client: the client-to-target direction does not proceed while the other one is blocked (the target reads at full speed)", c.UpMB, c.DownMB)
+	}
+	// now the client reads
+	dec := kit.NewStreamDecoder(key)
+	var got int64
+	buf := make([]byte, 256<<10)
+	cn.SetReadDeadline(time.Now().Add(30 * time.Second))
+	for {
+		n, err := cn.Read(buf)
+		if n > 0 {
+			if derr := dec.Feed(buf[:n]); derr != nil {
+				return kit.Violation("relay:t2c-corrupt", "the target's stream does not decrypt at the client: %v", derr)
+			}
+			got += int64(len(dec.Plain))
+			for i := 0; i < len(dec.Plain); i++ {
+				if dec.Plain[i] != block[(got-int64(len(dec.Plain))+int64(i))%int64(len(block))] {
+					return kit.Violation("relay:t2c-corrupt", "byte %d of the target's stream differs at the client", got-int64(len(dec.Plain))+int64(i))
+				}
+			}
+			dec.Plain = dec.Plain[:0]
+		}
+		if err != nil {
+			break
+		}
+	}
+	if got != int64(c.DownMB)<<20 {
+		return kit.Violation("relay:t2c-corrupt", "the client received %d of the %d bytes the target sent", got, int64(c.DownMB)<<20)
+	}
+	select {
+	case r := <-tdone:
+		if r.got != int64(c.UpMB)<<20 || r.sum != wantSum {
+			return kit.Violation("relay:c2t-corrupt", "the target received %d bytes (want %d) or a different content", r.got, int64(c.UpMB)<<20)
+		}
+	case <-time.After(10 * time.Second):
+		return kit.Violation("relay:premature-eof-target", "the target did not see the end of the client's stream")
+	}
+	info.NonTrivial, info.Steps = true, c.UpMB+c.DownMB
+	return nil
+}
+
+func TestC02_Duplex(t *testing.T) {
+	p := kit.Prop[C02Duplex]{ID: "C02", Name: "Duplex", Quick: 4, Thorough: 200, Gen: genC02Duplex, Run: runC02Duplex}
+	p.Execute(t)
+}
